@@ -157,7 +157,13 @@ func (ro *Roles) dequeueLoop(r *Report, which map[string]bool) {
 						BlockEdge: func(b *ssa.BasicBlock, s int) bool { return len(b.Instrs) > 0 && isAt(b.Instrs[len(b.Instrs)-1]) }}.Find().Found)
 					note("dequeue.admit-guard", fname+": start only on a fresh Start decision", fresh, pos, "the `decision == Start` test is not re-evaluated between two starts of the loop: the second job is started on a stale decision")
 					args := splitArgs(strings.TrimSuffix(strings.TrimPrefix(admitLit.Atom.L, dp.admitP), ")"))
-					okSame := len(args) == 3 && args[0] == "recv" && (args[1] == job+".Pipeline" || listKey != "" && args[1] == listKey)
+					// (runner, pipeline of the job | list key, [current definition of that pipeline,] ignore)
+					okSame := len(args) >= 3 && args[0] == "recv" && (args[1] == job+".Pipeline" || listKey != "" && args[1] == listKey)
+					for _, a := range args[2 : len(args)-1] {
+						if a != "recv.defs.Pipelines["+args[1]+"]" {
+							okSame = false
+						}
+					}
 					note("dequeue.decision-for-head", fname+": decision is about the started job", okSame, pos, "the decision is computed for "+admitLit.Atom.L+" but "+job+" is started")
 				}
 			}
@@ -239,10 +245,17 @@ func (ro *Roles) dequeueIndependent(r *Report, rule string) {
 				}
 				asked++
 				args := splitArgs(e.Val)
-				if len(args) != 3 {
+				if len(args) < 3 {
 					bad = "the admission function is called with " + e.Val
 					continue
 				}
+				// an extra argument may hand over the current definition of the same pipeline
+				for _, a := range args[2 : len(args)-1] {
+					if a != "recv.defs.Pipelines["+args[1]+"]" {
+						bad = "the admission function is called with " + e.Val
+					}
+				}
+				args = []string{args[0], args[1], args[len(args)-1]}
 				// the job the question is about: "<J>.Pipeline", else the head of the list of that key
 				job := ""
 				if strings.HasSuffix(args[1], ".Pipeline") {
